@@ -185,17 +185,19 @@ impl Thread {
         self.state = State::Terminated;
     }
 
-    pub(crate) fn drop_locals(&mut self) -> Box<dyn std::any::Any> {
+    /// Takes the values of the thread-locals of this thread that are still
+    /// alive, in the order in which they were initialized.
+    pub(crate) fn drop_locals(&mut self) -> Vec<Box<dyn std::any::Any>> {
         let mut locals = Vec::with_capacity(self.locals.len());
 
         // run the Drop impls of any mock thread-locals created by this thread.
         for key in &self.locals_order {
             if let Some(local) = self.locals.get_mut(key) {
-                locals.push(local.0.take());
+                locals.extend(local.0.take());
             }
         }
 
-        Box::new(locals)
+        locals
     }
 
     pub(crate) fn unpark(&mut self, unparker: &Thread) {
